@@ -14,7 +14,9 @@ DEFAULT = dict(
     AppKinds=set(), PeerKinds=set(),
     QosSet={1}, Topics={"t1"}, Aliases={0},
     InPids={1}, ExtraPids={9}, Rcs={0},
-    Cleans={True}, SPs={False}, KAs={0}, RMs={NA}, TAMs={NA}, MPSs={NA}, SEIs={NA}, SKAs={NA}, ConnackRcs={0},
+    Cleans={True}, KAs={0}, ConnRMs={NA}, ConnTAMs={NA}, ConnMPSs={NA}, ConnSEIs={NA},
+    SPs={False}, ConnackRcs={0}, AckRMs={NA}, AckTAMs={NA}, AckMPSs={NA}, AckSEIs={NA}, SKAs={NA},
+    RogueHandshake=False, PartialFrames=False,
     Intervals=set(),
     Fire=False, Close=True, Erase=False, IdOps=False, Crash=False, Garbage=False, BadFrames=set(),
     SendWhileDisc=False, PeerWhileDisc=False,
@@ -31,14 +33,85 @@ SLICES = {
     "qos_c311_auto": dict(AppKinds={"publish"}, PeerKinds=ACKS, QosSet={1, 2}, MaxConns=2, OptSets=[{"auto_pub"}],
                           Cleans={True, False}, SPs={True, False}, Erase=True),
     "qos_c50": dict(Vers={"v50"}, AppKinds={"publish", "pubrel"}, PeerKinds=ACKS, QosSet={1, 2}, MaxConns=2,
-                    Cleans={False}, SPs={True, False}, SEIs={NA, 10}, RMs={NA, 1}, Rcs={0, 128}, MaxUsed=2),
+                    Cleans={False}, SPs={True, False}, ConnSEIs={NA, 10}, AckRMs={NA, 1}, Rcs={0, 128}, MaxUsed=2),
     "qos_c50_rm": dict(Vers={"v50"}, AppKinds={"publish"}, PeerKinds=ACKS, QosSet={1, 2}, MaxConns=2,
-                       OptSets=[{"auto_pub"}], Cleans={False}, SPs={True}, SEIs={10}, RMs={1, 2}, Rcs={0, 128},
+                       OptSets=[{"auto_pub"}], Cleans={False}, SPs={True}, ConnSEIs={10}, AckRMs={1, 2}, Rcs={0, 128},
                        MaxUsed=2, Erase=True),
     "qos_offline": dict(Vers={"v311", "v50"}, AppKinds={"publish", "pubrel"}, PeerKinds=ACKS, QosSet={0, 1, 2}, MaxConns=2,
-                        OptSets=[set(), {"offline"}], Cleans={True, False}, SPs={True, False}, SEIs={NA, 10}, SendWhileDisc=True),
+                        OptSets=[set(), {"offline"}], Cleans={True, False}, SPs={True, False}, ConnSEIs={NA, 10}, SendWhileDisc=True),
     "qos_server": dict(Roles={"server"}, Vers={"v311", "v50"}, AppKinds={"publish", "pubrel"}, PeerKinds=ACKS, QosSet={1, 2},
-                       MaxConns=2, Cleans={True, False}, SPs={True, False}, SEIs={NA, 10}, RMs={NA, 1}),
+                       MaxConns=2, Cleans={True, False}, SPs={True, False}, ConnSEIs={NA, 10}, ConnRMs={NA, 1}),
+    # inbound QoS 2: exactly-once delivery (C07)
+    "in_qos2": dict(Roles={"client", "server"}, Vers={"v311", "v50"}, AppKinds={"pubrec", "pubcomp"}, PeerKinds={"publish", "pubrel"},
+                    QosSet={2}, InPids={1, 2}, Rcs={0, 128}, OptSets=[set(), {"auto_pub"}], MaxConns=2,
+                    Cleans={True, False}, SPs={True, False}, ConnSEIs={NA, 10}, MaxHeld=0),
+    "in_qos2_alias": dict(Roles={"server"}, Vers={"v50"}, AppKinds={"pubrec"}, PeerKinds={"publish", "pubrel"},
+                          QosSet={2}, InPids={1}, Topics={"t1", ""}, Aliases={0, 1, 2}, AckTAMs={NA, 1}, Rcs={0},
+                          OptSets=[set(), {"auto_pub"}], MaxConns=2, Cleans={False}, ConnSEIs={10}, MaxHeld=0),
+    "in_rm": dict(Roles={"client", "server"}, Vers={"v50"}, AppKinds={"puback", "pubrec", "pubcomp"}, PeerKinds={"publish", "pubrel"},
+                  QosSet={1, 2}, InPids={1, 2}, Rcs={0, 128}, OptSets=[set(), {"auto_pub"}], MaxConns=1,
+                  ConnRMs={NA, 1}, AckRMs={NA, 1}, MaxHeld=0),
+    # topic aliases (C13)
+    "alias_send": dict(Vers={"v50"}, AppKinds={"publish"}, PeerKinds={"puback"}, QosSet={0, 1}, Topics={"t1", "t2", ""},
+                       Aliases={0, 1, 2}, AckTAMs={NA, 0, 1, 2}, AckRMs={NA, 1}, MaxConns=2, Cleans={True}, MaxHeld=1, MaxUsed=1),
+    "alias_auto": dict(Vers={"v50"}, AppKinds={"publish"}, PeerKinds={"puback"}, QosSet={0, 1}, Topics={"t1", "t2"},
+                       Aliases={0, 1}, AckTAMs={NA, 1, 2}, AckRMs={NA, 1}, AckMPSs={NA, 12}, OptSets=[{"auto_map"}, {"auto_replace"}],
+                       MaxConns=2, Cleans={False}, ConnSEIs={10}, SPs={True, False}, MaxHeld=1, MaxUsed=1),
+    "alias_srv": dict(Roles={"server"}, Vers={"v50"}, AppKinds={"publish"}, PeerKinds={"publish"}, QosSet={0}, Topics={"t1", "t2", ""},
+                      Aliases={0, 1, 2}, ConnTAMs={NA, 0, 1}, AckTAMs={NA, 0, 2}, OptSets=[set(), {"auto_map"}], MaxConns=2, MaxHeld=0),
+    # Maximum Packet Size (C14)
+    "mps": dict(Vers={"v50"}, AppKinds={"publish", "subscribe", "pingreq", "disconnect"}, PeerKinds={"publish", "puback", "suback"},
+                QosSet={0, 1}, Aliases={0, 1}, AckTAMs={NA, 1}, AckMPSs={NA, 2, 3, 10, 11, 13}, ConnMPSs={NA, 10, 11},
+                OptSets=[set(), {"auto_pub"}, {"auto_map"}], MaxConns=1, Fire=True, KAs={0, 10}),
+    "mps_resume": dict(Roles={"client", "server"}, Vers={"v50"}, AppKinds={"publish"}, PeerKinds={"puback", "pubrec", "pubcomp"}, QosSet={1, 2},
+                       AckMPSs={NA, 3, 10, 11}, ConnMPSs={NA, 3, 10, 11}, OptSets=[{"auto_pub"}], MaxConns=2, Cleans={False},
+                       ConnSEIs={10}, SPs={True}),
+    # keep-alive timers (C15, C19)
+    "timers_c": dict(Vers={"v311", "v50"}, AppKinds={"pingreq", "publish", "disconnect"}, PeerKinds={"pingresp", "publish", "disconnect"},
+                     QosSet={0}, KAs={0, 10}, SKAs={NA, 0, 5}, Intervals={NA, 0, 7}, RespTimeouts={0, 3}, Fire=True, MaxConns=2, MaxHeld=0,
+                     AckMPSs={NA, 2}),
+    "timers_s": dict(Roles={"server"}, Vers={"v311", "v50"}, AppKinds={"pingresp", "publish", "disconnect"}, PeerKinds={"pingreq", "publish", "disconnect"},
+                     QosSet={0}, KAs={0, 10}, SKAs={NA, 0, 5}, OptSets=[set(), {"auto_ping"}], Fire=True, MaxConns=2, MaxHeld=0,
+                     ConnackRcs={0, 135}, AckMPSs={NA}, ConnMPSs={NA, 2}),
+    # send gate matrix (C11)
+    "gate": dict(Roles={"client", "server", "any"}, Vers={"v311", "v50", "undet"},
+                 AppKinds={"publish", "puback", "pubrec", "pubrel", "pubcomp", "subscribe", "suback", "unsubscribe", "unsuback",
+                           "pingreq", "pingresp", "disconnect", "auth"},
+                 QosSet={0, 1}, OptSets=[set(), {"offline"}], Cleans={True, False}, SendWhileDisc=True, MaxConns=1, MaxHeld=1, MaxUsed=1,
+                 Close=False),
+    # receive gate matrix and version auto-detection (C17)
+    "rgate": dict(Roles={"client", "server", "any"}, Vers={"v311", "v50", "undet"},
+                  PeerKinds={"publish", "puback", "pubrec", "pubrel", "pubcomp", "subscribe", "suback", "unsubscribe", "unsuback",
+                             "pingreq", "pingresp", "disconnect", "auth"},
+                  QosSet={0, 1}, PeerWhileDisc=True, RogueHandshake=True, MaxConns=1, MaxHeld=0, Close=False),
+    "autodetect": dict(Roles={"server", "any"}, Vers={"undet"}, AppKinds={"publish", "suback", "pingresp", "disconnect"},
+                       PeerKinds={"publish", "puback", "subscribe", "pingreq", "disconnect", "auth"}, QosSet={0, 1},
+                       ConnRMs={NA, 1}, ConnTAMs={NA, 1}, KAs={0, 10}, OptSets=[set(), {"auto_pub", "auto_ping"}], MaxConns=2, Fire=True),
+    # hostile peer (C05)
+    "hostile": dict(Roles={"client", "server", "any"}, Vers={"v311", "v50", "undet"},
+                    PeerKinds={"publish", "puback", "pubrec", "pubrel", "pubcomp", "suback", "subscribe", "pingreq"},
+                    BadFrames={"publish", "puback", "connack", "connect", "subscribe"},
+                    QosSet={1, 2}, InPids={0, 1}, ExtraPids={0, 9}, OptSets=[set(), {"auto_pub"}], Garbage=True,
+                    ConnTAMs={NA, 0}, ConnRMs={NA, 1}, ConnMPSs={NA, 1}, AckTAMs={NA, 0}, AckMPSs={NA, 1}, PeerWhileDisc=True,
+                    MaxConns=2, MaxHeld=0),
+    # connection reuse (C10)
+    "reuse_c": dict(Roles={"client"}, Vers={"v311", "v50"}, AppKinds={"publish", "subscribe", "disconnect"},
+                    PeerKinds={"publish", "suback"}, QosSet={1}, Topics={"t1"}, Aliases={0, 1},
+                    KAs={0, 10}, SKAs={NA, 5}, AckRMs={NA, 1}, AckTAMs={NA, 1}, AckMPSs={NA, 13}, ConnTAMs={NA},
+                    Cleans={True}, SPs={False}, MaxConns=2, Fire=True, Garbage=True, PartialFrames=True, MaxUsed=1),
+    "reuse_c2": dict(Roles={"client", "any"}, Vers={"v311", "v50"}, AppKinds={"publish", "pingreq"},
+                    PeerKinds={"publish", "puback", "pubrec"}, QosSet={1, 2}, KAs={0, 10}, ConnTAMs={NA, 1}, ConnRMs={NA, 1},
+                    Cleans={False}, ConnSEIs={NA, 10}, SPs={False}, MaxConns=2, RespTimeouts={0, 3}, Fire=True, MaxUsed=1),
+    "reuse_s": dict(Roles={"server", "any"}, Vers={"v311", "v50"}, AppKinds={"publish", "disconnect"},
+                    PeerKinds={"publish", "subscribe", "disconnect"}, QosSet={2}, Aliases={0, 1},
+                    KAs={0, 10}, SKAs={NA, 5}, ConnRMs={NA, 1}, ConnTAMs={NA, 1}, ConnMPSs={NA, 13}, AckTAMs={NA, 1},
+                    Cleans={True}, MaxConns=2, Fire=True, PartialFrames=True, MaxUsed=1),
+    # export / crash / restore (C16)
+    "crash_out": dict(Roles={"client"}, Vers={"v311", "v50"}, AppKinds={"publish", "pubrel"}, PeerKinds=ACKS, QosSet={1, 2}, MaxConns=2,
+                      Cleans={False}, SPs={True}, ConnSEIs={10}, AckRMs={NA, 2}, Crash=True, Close=False),
+    "crash_in": dict(Roles={"client", "server"}, Vers={"v311", "v50"}, AppKinds={"pubrec", "pubcomp"}, PeerKinds={"publish", "pubrel"},
+                     QosSet={2}, InPids={1, 2}, MaxConns=2, Cleans={False}, SPs={True}, ConnSEIs={10}, Crash=True, Close=False, MaxHeld=0,
+                     OptSets=[set(), {"auto_pub"}]),
 }
 
 
